@@ -18,6 +18,7 @@ section
 variable {α : Type} [Field α] [LinearOrder α] [IsStrictOrderedRing α] [FloorRing α]
 
 noncomputable instance fieldScalarOps : ScalarOps α where
+  pySum l := l.sum
   ofInt n := (n : α)
   floor x := ((⌊x⌋ : ℤ) : α)
   nextPow2 x := (2 : α) ^ (Int.clog 2 x)
